@@ -41,6 +41,7 @@ inductive V (α : Type)
   | str (s : String)                 -- unit strings ('' / 's' / 'ms' / 'us' / 'ns')
   | pair (a b : V α)                 -- a 2-tuple
   | blist (l : List Bool)            -- a Python list of Booleans (verdicts of the interface-aware predicate)
+  | rlist (l : List Rat)             -- a list of exact numbers (the time column of a data set)
   deriving Repr, Inhabited
 
 inductive UnOp | neg | abs | sqrt | exp | ln | not | truthy | frac | numer | denom | toInt | unitNs
@@ -251,6 +252,11 @@ def evalIdx : V α → V α → Except PyErr (V α)
       | some (c, d) => .ok (.deque c d)
       | none => .error .index
   | .list l, .int i => if i < 0 then .error .index else (idx l i.toNat).map .num
+  | .rlist l, .int i =>
+      if i < 0 then .error .index else
+      match l[i.toNat]? with
+      | some q => .ok (.rat q)
+      | none => .error .index
   | _, _ => .error .type
 
 def evalE (env : Env α) : E → Except PyErr (V α)
@@ -279,6 +285,7 @@ def evalE (env : Env α) : E → Except PyErr (V α)
       match (← evalE env e) with
       | .deque _ l => .ok (.int l.length)
       | .str u => .ok (.int u.length)
+      | .rlist l => .ok (.int l.length)
       | v => match asList v with
              | some l => .ok (.int l.length)
              | none => .error .type
